@@ -1,6 +1,7 @@
 package main
 
 import (
+	"context"
 	"go/token"
 	"go/types"
 	"regexp"
@@ -361,22 +362,58 @@ func solveOne(o *Obligation, wd *workDir, timeoutS int, agree bool) {
 	f := wd.file(o.Name)
 	os.WriteFile(f, []byte(smtText(o, true)), 0o644)
 	o.File = f
+	stageable := o.Kind != "vacuity" && o.Kind != "finding" && !agree
 	first := timeoutS
-	if o.Kind != "vacuity" && o.Kind != "finding" && !agree {
-		first = (timeoutS + 1) / 2
+	if stageable {
+		first = 2
 	}
 	best, all := solvePortfolio(f, first, agree)
 	if best.Status == "unknown" && o.Kind != "vacuity" && o.Kind != "finding" {
-		// second attempt on the cone-of-influence slice of the assumptions
+		// second stage: the full query with the remaining budget races the same goal under the
+		// cone-of-influence slice of the assumptions (fewer assumptions: unsat there implies unsat
+		// of the full query; sat there means nothing)
 		sl := slicePC(o)
+		type res struct {
+			b   SolverResult
+			all []SolverResult
+			sl  bool
+		}
+		ch := make(chan res, 2)
+		rctx, rcancel := context.WithCancel(context.Background())
+		defer rcancel()
+		n := 0
+		if stageable {
+			n++
+			go func() {
+				b, a := solvePortfolioCtx(rctx, f, timeoutS, agree)
+				ch <- res{b, a, false}
+			}()
+		}
 		if len(sl) < len(o.PC) {
+			n++
 			f2 := wd.file(o.Name + ".sliced")
 			os.WriteFile(f2, []byte(smtTextPC(o, true, sl)), 0o644)
-			b2, all2 := solvePortfolio(f2, timeoutS-first+1, agree)
-			if b2.Status == "unsat" {
-				b2.Solver += "+slice"
-				b2.Seconds += best.Seconds
-				best, all = b2, all2
+			go func() {
+				b, a := solvePortfolioCtx(rctx, f2, timeoutS, agree)
+				ch <- res{b, a, true}
+			}()
+		}
+		spent := best.Seconds
+		for i := 0; i < n; i++ {
+			r := <-ch
+			if r.sl {
+				if r.b.Status == "unsat" {
+					r.b.Solver += "+slice"
+					r.b.Seconds += spent
+					best, all = r.b, r.all
+					break
+				}
+				continue
+			}
+			if r.b.Status != "unknown" {
+				r.b.Seconds += spent
+				best, all = r.b, r.all
+				break
 			}
 		}
 	}
@@ -619,11 +656,31 @@ func writeEvidence(verifDir string, pr *PropRun, results []*NamedResult, violati
 		"solver_seconds": totals, "solver_wins": counts,
 		"known_findings_reported": known,
 		"undecided_not_claimed": undecided,
-		"not_decided": propResidue[pr.Prop],
 		"explanation": "every obligation is (path condition ∧ contract assumptions ∧ ¬goal) generated from the go/ssa form of /repo's current working tree; discharged means unsat",
 	}
 	for k, v := range extra {
 		ev.Coverage[k] = v
+	}
+	// residue.json (committed, read-only): what is not decided, what is derived on paper,
+	// which catalogue assumptions the property rests on
+	if rb, err := os.ReadFile(filepath.Join(verifDir, "residue.json")); err == nil {
+		var res map[string]json.RawMessage
+		if json.Unmarshal(rb, &res) == nil {
+			var texts map[string]string
+			json.Unmarshal(res["assumption_text"], &texts)
+			var pe struct {
+				Assumptions    []string `json:"assumptions"`
+				DerivedOnPaper []string `json:"derived_on_paper"`
+				NotDecided     []string `json:"not_decided"`
+			}
+			if json.Unmarshal(res[pr.Prop], &pe) == nil {
+				ev.Coverage["not_decided"] = pe.NotDecided
+				ev.Coverage["derived_on_paper"] = pe.DerivedOnPaper
+				for _, a := range pe.Assumptions {
+					notes = append(notes, "catalogue assumption "+a+": "+texts[a])
+				}
+			}
+		}
 	}
 	ev.Assumptions = notes
 	b, _ := json.MarshalIndent(ev, "", " ")
